@@ -146,48 +146,45 @@ Section WithCallNP.
        destruct rb; try congruence; discriminate).
   Qed.
 
-  Lemma insert_tail_by_np : forall func x prefix_rev st,
-    fst (insert_tail_by St call func x prefix_rev st) <> Panic.
+  (* the merge loop of the stable merge sort (repo fix f7e0465) with the comparator closure *)
+  Lemma merge_by_np : forall func left right st,
+    fst (merge_by St call func left right st) <> Panic.
   Proof.
-    intros func x prefix_rev. induction prefix_rev as [|y rest IH]; intros st; cbn [insert_tail_by];
-      [discriminate|].
-    pose proof (sort_by_cmp_np func x y st) as Hc.
-    destruct (sort_by_cmp St call func x y st) as [c st1]. cbn [fst] in Hc.
-    destruct c as [[]| | | |]; try congruence; try discriminate.
-    specialize (IH st1). destruct (insert_tail_by St call func x rest st1) as [res st2].
-    cbn [fst] in *. apply omap_np. exact IH.
+    intros func left. induction left as [|a left' IHl]; intros right st.
+    - destruct right; cbn; discriminate.
+    - induction right as [|b right' IHr] in st |- *; [cbn; discriminate|].
+      cbn [merge_by].
+      pose proof (sort_by_cmp_np func b a st) as Hc.
+      destruct (sort_by_cmp St call func b a st) as [c st1]. cbn [fst] in Hc.
+      destruct c as [[]| | | |]; try congruence; try discriminate.
+      + specialize (IHl (b :: right') st1).
+        destruct (merge_by St call func left' (b :: right') st1) as [res st2].
+        cbn [fst] in *. apply omap_np. exact IHl.
+      + specialize (IHr st1). cbn [merge_by] in IHr.
+        match goal with |- context [(fix merge_right (r : list value) (s : St) {struct r} := _) right' st1] =>
+          destruct ((fix merge_right (r : list value) (s : St) {struct r} := _) right' st1) as [res st2] end.
+        cbn [fst] in *. apply omap_np. exact IHr.
+      + specialize (IHl (b :: right') st1).
+        destruct (merge_by St call func left' (b :: right') st1) as [res st2].
+        cbn [fst] in *. apply omap_np. exact IHl.
   Qed.
 
-  Lemma insertion_sort_by_np : forall func l prefix_rev st,
-    fst (insertion_sort_by St call func l prefix_rev st) <> Panic.
+  Lemma merge_sort_by_fuel_np : forall fuel func l st,
+    fst (merge_sort_by_fuel St call fuel func l st) <> Panic.
   Proof.
-    intros func l. induction l as [|x rest IH]; intros prefix_rev st; cbn [insertion_sort_by];
-      [discriminate|].
-    pose proof (insert_tail_by_np func x prefix_rev st) as Hi.
-    destruct (insert_tail_by St call func x prefix_rev st) as [res st1]. cbn [fst] in Hi.
-    destruct res; try congruence; try discriminate; try apply IH.
-  Qed.
-
-  Lemma keys_of_np : forall func l st, fst (keys_of St call func l st) <> Panic.
-  Proof.
-    intros func l. induction l as [|x rest IH]; intros st; cbn [keys_of]; [discriminate|].
-    pose proof (call_np func func [x] st) as Hc.
-    destruct (call func func [x] st) as [k st1]. cbn [fst] in Hc.
-    destruct k; try congruence; try discriminate.
-    specialize (IH st1). destruct (keys_of St call func rest st1) as [more st2].
-    cbn [fst] in *. apply omap_np. exact IH.
+    induction fuel as [|f IH]; intros func l st; cbn [merge_sort_by_fuel]; [discriminate|].
+    destruct (Datatypes.length l <? 2); [discriminate|].
+    pose proof (IH func (firstn (Datatypes.length l / 2) l) st) as H1.
+    destruct (merge_sort_by_fuel St call f func (firstn (Datatypes.length l / 2) l) st) as [sl st1].
+    cbn [fst] in H1. destruct sl; try congruence; try discriminate.
+    pose proof (IH func (skipn (Datatypes.length l / 2) l) st1) as H2.
+    destruct (merge_sort_by_fuel St call f func (skipn (Datatypes.length l / 2) l) st1) as [sr st2].
+    cbn [fst] in H2. destruct sr; try congruence; try discriminate.
+    apply merge_by_np.
   Qed.
 
   Lemma sort_by_list_np : forall func l st, fst (sort_by_list St call func l st) <> Panic.
-  Proof.
-    intros func l st. unfold sort_by_list.
-    destruct (Datatypes.length l <=? 20); [apply insertion_sort_by_np|].
-    destruct (negb (is_function func)); [discriminate|].
-    pose proof (keys_of_np func l st) as Hk.
-    destruct (keys_of St call func l st) as [keyed st1]. cbn [fst] in Hk.
-    destruct keyed; try congruence; try discriminate.
-    destruct (mutually_comparable _); discriminate.
-  Qed.
+  Proof. intros func l st. unfold sort_by_list. apply merge_sort_by_fuel_np. Qed.
 
   Lemma sort_by_np : forall args st,
     arity_can_accept (builtin_arity B_sort_by) (Datatypes.length args) = true ->
